@@ -1156,3 +1156,84 @@ Proof.
     rewrite (rp_serialised (q_replies q) k v b rest Hnd Hok). reflexivity.
   - rewrite Hm. exists (k, v). reflexivity.
 Qed.
+
+(* ================================================================== the retry budget, counted in the log *)
+(* A retrying stream makes at most as many connection attempts (successful opens + refused ones) as it has attempts left: a public
+   call built from one stream never connects more than 20 times, whatever the terminal does. *)
+
+Fixpoint attempts (l : list event) : nat :=
+  match l with
+  | [] => O
+  | EOpen _ _ :: r | ERefused _ :: r => S (attempts r)
+  | _ :: r => attempts r
+  end.
+
+Lemma attempts_writes id ws l : Forall (is_write_on id) ws -> attempts (ws ++ l) = attempts l.
+Proof.
+  intros F. induction ws as [|e ws IH]; [reflexivity|]. inversion F as [|? ? He Fw]; subst.
+  destruct e; try contradiction. cbn [app attempts]. apply IH. exact Fw.
+Qed.
+Lemma ext_attempts id w w' : ext id w w' -> attempts (w_log w') = attempts (w_log w).
+Proof. intros [_ _ _ [ws [E F]]]. rewrite E. apply (attempts_writes id). exact F. Qed.
+Lemma drop_cur_attempts w : attempts (w_log (drop_cur w)) = attempts (w_log w).
+Proof. unfold drop_cur. destruct (w_cur w); reflexivity. Qed.
+
+Lemma connect_attempts cfg d w :
+  match connect cfg d w with COk _ w' | CErr _ w' => attempts (w_log w') = S (attempts (w_log w)) end.
+Proof.
+  unfold connect. destruct (w_scripts w) as [|s rest]; [reflexivity|]. destruct (cs_refused s); [reflexivity|].
+  cbv zeta. cbn [w_conns w_scripts w_cur w_now w_log].
+  match goal with |- context [seq_next _ ?i PStart d ?W] => set (w1 := W); set (id := i) end.
+  assert (A1 : attempts (w_log w1) = S (attempts (w_log w))) by reflexivity.
+  pose proof (seq_next_ext (seq_of "zvt::sequences::Registration" (registration_cmd cfg)) id PStart d w1) as X1.
+  destruct (seq_next _ id PStart d w1) as [[i v|e] ph w'|w'|w']; cbn [drop_conn logw w_log attempts];
+    try (rewrite (ext_attempts id w1 w' X1); exact A1).
+  pose proof (seq_next_ext (seq_of "zvt::feig::sequences::GetSystemInfo" sysinfo_cmd) id PStart d w') as X2.
+  assert (A2 : forall w2, ext id w' w2 -> attempts (w_log w2) = S (attempts (w_log w)))
+    by (intros w2 X; rewrite (ext_attempts id w' w2 X), (ext_attempts id w1 w' X1); exact A1).
+  destruct (seq_next _ id PStart d w') as [[i2 v2|e2] ph2 w2|w2|w2]; cbn [drop_conn logw w_log attempts]; try (apply A2; exact X2).
+  destruct (i2 =? _); cbn [drop_conn logw w_log attempts]; [|apply A2; exact X2].
+  destruct (first_pos v2) as [[| dev | | | | | |]|]; cbn [drop_conn logw w_log attempts]; try (apply A2; exact X2).
+  destruct (Client.list_eqb _ _); cbn [drop_conn logw w_log attempts]; apply A2; exact X2.
+Qed.
+
+Theorem retry_next_attempts cfg : forall fuel r w it r' w', retry_next fuel cfg r w = (it, r', w') ->
+  (attempts (w_log w') + r_left r' <= attempts (w_log w) + r_left r)%nat.
+Proof.
+  induction fuel as [|f IH]; intros r w it r' w' E; cbn [retry_next] in E.
+  { injection E as _ <- <-. cbn [rs_set r_left]. lia. }
+  destruct (r_ph r) eqn:P.
+  - destruct (r_left r) as [|lft] eqn:L; [injection E as _ <- <-; cbn [rs_set r_left]; lia|].
+    set (start := if r_first r then w_now w else N.max (w_now w) (r_last r + r_throttle r)) in *.
+    destruct (w_cur (at_time w start)) as [id|] eqn:C.
+    + specialize (IH _ _ _ _ _ E). cbn [rs_set r_left at_time w_log] in IH. lia.
+    + pose proof (connect_attempts cfg (start + r_timeout (rs_set r lft false start RIdle)) (at_time w start)) as K.
+      destruct (connect cfg _ (at_time w start)) as [id w1|what w1]; cbn [at_time w_log] in K.
+      * specialize (IH _ _ _ _ _ E). cbn [rs_set r_left set_cur w_log] in IH. lia.
+      * injection E as _ <- <-. cbn [rs_set r_left]. lia.
+  - destruct (w_cur w) as [id|] eqn:C; [|injection E as _ <- <-; cbn [rs_set r_left]; lia].
+    pose proof (seq_next_ext (r_seq r) id ph (w_now w + r_timeout r) w) as X.
+    destruct (seq_next (r_seq r) id ph (w_now w + r_timeout r) w) as [[i v|e] ph' w1|w1|w1]; pose proof (ext_attempts id w w1 X) as A.
+    + injection E as _ <- <-. cbn [rs_set r_left]. lia.
+    + injection E as _ <- <-. cbn [rs_set r_left]. lia.
+    + injection E as _ <- <-. cbn [rs_set r_left]. lia.
+    + specialize (IH _ _ _ _ _ E). rewrite drop_cur_attempts in IH. cbn [rs_set r_left] in IH. lia.
+  - specialize (IH _ _ _ _ _ E). rewrite drop_cur_attempts in IH. cbn [rs_set r_left] in IH. lia.
+  - injection E as _ <- <-. lia.
+Qed.
+
+Theorem consume_attempts {A B} cfg (h : A -> N -> value -> option (cres B) * A) fin : forall fuel r w acc,
+  (attempts (w_log (snd (consume fuel cfg r w acc h fin))) <= attempts (w_log w) + r_left r)%nat.
+Proof.
+  induction fuel as [|f IH]; intros r w acc; [cbn; lia|]. rewrite consume_S.
+  destruct (retry_next RFUEL cfg r w) as [[it r1] w1] eqn:E. pose proof (retry_next_attempts cfg RFUEL r w it r1 w1 E) as K.
+  destruct it as [[i v|e]|]; cbn [snd].
+  - destruct (h acc i v) as [[res|] acc']; cbn [snd]; [lia|]. specialize (IH r1 w1 acc'). lia.
+  - specialize (IH r1 w1 acc). lia.
+  - lia.
+Qed.
+
+(* every single-exchange call: at most 20 connection attempts *)
+Corollary call_attempts {A B} cfg q T w acc (h : A -> N -> value -> option (cres B) * A) fin fuel :
+  (attempts (w_log (snd (consume fuel cfg (start_retry q T) w acc h fin))) <= attempts (w_log w) + 20)%nat.
+Proof. apply (consume_attempts cfg h fin fuel (start_retry q T) w acc). Qed.
